@@ -308,6 +308,9 @@ def build_vault_args(sigcase, spec):
             out[name] = spec.get("clone", True)
         elif type(t).__name__ == "_Int":
             out[name] = spec.get("position", 0)
+        elif type(t).__name__ == "TupleOf":
+            vals = spec.get("tuple", ())
+            out[name] = tuple(vals[i] if i < len(vals) else spec.get("position", 0) for i in range(len(t.elts)))
     return out
 
 
@@ -334,6 +337,8 @@ def concretize_vault(con, sigcase, model):
                 spec["position"] = spec[name]
         elif tn == "_Bool":
             spec[name] = bool(_mv(model, z3.Bool(name), False))
+        elif tn == "TupleOf":
+            spec[name] = tuple(_mv(model, z3.Int(f"{name}.{i}")) for i in range(len(t.elts)))
     return build_vault_args(sigcase, spec)
 
 
@@ -362,7 +367,9 @@ def gen_vault(con, sigcase, count, seed):
     rnd.shuffle(cases)
     n = 0
     for runs, pos, irep, cached in cases:
-        spec = {"position": pos, "item": (99, irep), "clone": rnd.choice([True, False]), "x": pos, "y": pos}
+        spec = {"position": pos, "item": (99, irep), "clone": rnd.choice([True, False]), "x": pos, "y": pos,
+                "tuple": tuple(rnd.choice([pos, -pos, pos - total, irep, -irep, 0, -1, total, -total - 1])
+                               for _ in range(4))}
         other = [(50, 2), (51, 1)]
         if kinds == ("cells",):
             spec["cells"] = runs
